@@ -94,6 +94,9 @@ class Check:
             return None
         return "impl=%s model=%s" % (json.dumps(iobs)[:300], json.dumps(mobs)[:300])
 
+    def entry_of(self, case):
+        return self.entry
+
     def in_domain(self, case, mobs):
         """False when the model says the case is outside the property's domain (counted, skipped)."""
         return True
@@ -232,7 +235,7 @@ def run_check(chk, tier, seed, replay=None, max_report=5):
         print("case:", json.dumps(case)[:2000])
         print("implementation:", json.dumps(iobs, default=str)[:2000])
         if chk.entry:
-            res = lib.run_model(chk.entry, [chk.model_arg(case)])[0]
+            res = lib.run_model(chk.entry_of(case), [chk.model_arg(case)])[0]
             mobs = chk.model_obs(case, res)
             print("model:", json.dumps(mobs, default=str)[:2000])
             print("correspondence:", chk.compare(case, iobs, mobs) or "agree")
@@ -258,7 +261,7 @@ def run_check(chk, tier, seed, replay=None, max_report=5):
     mobs = [None] * len(cases)
     if chk.entry:
         try:
-            res = lib.run_model(chk.entry, [chk.model_arg(c) for c in cases])
+            res = lib.run_model([chk.entry_of(c) for c in cases], [chk.model_arg(c) for c in cases])
             mobs = [chk.model_obs(c, r) for c, r in zip(cases, res)]
         except Exception as e:
             model_error = "%s: %s" % (type(e).__name__, str(e)[:400])
@@ -292,7 +295,7 @@ def run_check(chk, tier, seed, replay=None, max_report=5):
         k = 200 if tier == "thorough" else 12
         idx = sorted(rng.sample(range(len(cases)), min(k, len(cases))))
         try:
-            kres = lib.run_model_in_coq(chk.entry, [chk.model_arg(cases[i]) for i in idx], pid)
+            kres = lib.run_model_in_coq([chk.entry_of(cases[i]) for i in idx], [chk.model_arg(cases[i]) for i in idx], pid)
             for i, r in zip(idx, kres):
                 kernel_checked += 1
                 if chk.model_obs(cases[i], r) != mobs[i]:
